@@ -33,7 +33,8 @@ def obs (g : Net) (o : Obs) : String :=
   let insts := String.intercalate " " ((List.range g.n).map (obsInst g))
   let qs := String.intercalate "," ((List.range g.n).map fun i => String.intercalate "" ((List.range g.n).map fun j => toString (g.queue i j).length))
   let ib := String.intercalate "" ((List.range g.n).map fun j => toString (g.inbox.getD j []).length)
-  let errs := String.intercalate "," ((o.filter fun (_, e, _) => e.isSome).map fun (i, e, _) => s!"{i}:{showErr e}")
+  let errs := String.intercalate "," (((o.filter fun (_, e, _) => e.isSome).map fun (i, e, _) => s!"{i}:{showErr e}")
+    ++ (g.raised.eraseDups.map fun i => s!"{i}:Other"))
   let acts := String.intercalate "," (o.flatMap fun (i, _, outs) => outs.filterMap (fun x => (showOut x).map (fun t => s!"{i}:{t}")))
   -- FSM states published by each touched instance during this action (the trace between two observations)
   let trace := String.intercalate "," (o.flatMap fun (i, _, outs) => outs.filterMap (fun x => match x with
